@@ -787,5 +787,130 @@ fn check_feasibility(
     (course.is_none(), false, course)
 }
 
+/// Verification hooks (feature `verif` only): expose the private node solver and its helper functions on plain data.
+#[cfg(feature = "verif")]
+pub mod verif_hooks {
+    use super::*;
+
+    /// Public mirror of [BABNode]
+    #[derive(Clone, Debug, PartialEq)]
+    pub struct VNode {
+        pub cancelled: Vec<usize>,
+        pub enforced: Vec<usize>,
+        pub shrinked: Vec<(usize, usize)>,
+    }
+    #[derive(Clone, Debug, PartialEq)]
+    pub enum VResult {
+        NoSolution,
+        Infeasible(Vec<VNode>, u32),
+        Feasible(Assignment, u32),
+    }
+    pub struct VProblem(PreComputedProblem);
+
+    fn to_node(n: &VNode) -> BABNode {
+        BABNode {
+            cancelled_courses: n.cancelled.clone(),
+            enforced_courses: n.enforced.clone(),
+            shrinked_courses: n.shrinked.clone(),
+        }
+    }
+    fn from_node(n: &BABNode) -> VNode {
+        VNode {
+            cancelled: n.cancelled_courses.clone(),
+            enforced: n.enforced_courses.clone(),
+            shrinked: n.shrinked_courses.clone(),
+        }
+    }
+
+    pub fn precompute(
+        courses: &[Course],
+        participants: &[Participant],
+        rooms: Option<&Vec<usize>>,
+    ) -> VProblem {
+        VProblem(precompute_problem(courses, participants, rooms))
+    }
+
+    /// (n, m, dummy_x, skip_x_always, course_map, inverse_course_map, room_sizes, adjacency matrix rows)
+    #[allow(clippy::type_complexity)]
+    pub fn problem_data(
+        p: &VProblem,
+    ) -> (
+        usize,
+        usize,
+        Vec<bool>,
+        Vec<bool>,
+        Vec<usize>,
+        Vec<usize>,
+        Option<Vec<usize>>,
+        Vec<Vec<i32>>,
+    ) {
+        let (n, m) = p.0.adjacency_matrix.dim();
+        (
+            n,
+            m,
+            p.0.dummy_x.to_vec(),
+            p.0.skip_x_always.to_vec(),
+            p.0.course_map.to_vec(),
+            p.0.inverse_course_map.clone(),
+            p.0.room_sizes.clone(),
+            p.0.adjacency_matrix
+                .rows()
+                .into_iter()
+                .map(|r| r.to_vec())
+                .collect(),
+        )
+    }
+
+    pub fn run_node(
+        courses: &[Course],
+        participants: &[Participant],
+        problem: &VProblem,
+        node: &VNode,
+    ) -> VResult {
+        match run_bab_node(courses, participants, &problem.0, to_node(node), false) {
+            NoSolution => VResult::NoSolution,
+            Infeasible(children, score) => {
+                VResult::Infeasible(children.iter().map(from_node).collect(), score)
+            }
+            Feasible(assignment, score) => VResult::Feasible(assignment, score),
+        }
+    }
+
+    /// check_room_feasibility on plain data: (feasible, constraint sets as (shrink_courses, cancel_courses))
+    #[allow(clippy::type_complexity)]
+    pub fn room_feasibility(
+        courses: &[Course],
+        assignment: &Assignment,
+        rooms: &Vec<usize>,
+        node: &VNode,
+    ) -> (bool, Option<Vec<(Vec<(usize, usize)>, Vec<usize>)>>) {
+        let (feasible, sets) = check_room_feasibility(courses, assignment, rooms, &to_node(node));
+        (
+            feasible,
+            sets.map(|v| {
+                v.into_iter()
+                    .map(|s| (s.shrink_courses, s.cancel_courses))
+                    .collect()
+            }),
+        )
+    }
+
+    pub fn feasibility(
+        courses: &[Course],
+        participants: &[Participant],
+        assignment: &Assignment,
+        node: &VNode,
+        is_instructor: &[bool],
+    ) -> (bool, bool, Option<usize>) {
+        check_feasibility(
+            courses,
+            participants,
+            assignment,
+            &to_node(node),
+            &ndarray::Array1::from_vec(is_instructor.to_vec()),
+        )
+    }
+}
+
 #[cfg(test)]
 mod tests;
